@@ -431,6 +431,28 @@ def lifecycle_cases(sizes=(2, 3)):
     return out
 
 
+def lifecycle_name_cases():
+    """one connection with a subscription HISTORY in which names coincide (a channel and a pattern spelled alike, a name subscribed twice, partly
+    unsubscribed again) is closed / collected; the prober then publishes to every name: nothing of the dead connection may be left in either table"""
+    hist = [
+        [[b'subscribe', b'ch1'], [b'psubscribe', b'ch1']], [[b'psubscribe', b'ch1'], [b'subscribe', b'ch1']],
+        [[b'subscribe', b'ch1'], [b'psubscribe', b'ch1'], [b'unsubscribe', b'ch1']], [[b'subscribe', b'ch1'], [b'psubscribe', b'ch1'], [b'punsubscribe', b'ch1']],
+        [[b'psubscribe', b'ch1'], [b'subscribe', b'ch1'], [b'unsubscribe']], [[b'subscribe', b'ch1'], [b'psubscribe', b'ch1'], [b'punsubscribe']],
+        [[b'subscribe', b'ch1', b'ch1']], [[b'subscribe', b'ch1'], [b'unsubscribe', b'ch1'], [b'subscribe', b'ch1']],
+        [[b'psubscribe', b'ch1', b'c*'], [b'punsubscribe', b'c*']], [[b'subscribe', b'c*'], [b'psubscribe', b'c*'], [b'unsubscribe', b'c*']],
+        [[b'subscribe', b'ch1', b'ch2'], [b'unsubscribe', b'ch2'], [b'psubscribe', b'ch2']], [[b'subscribe', b''], [b'psubscribe', b'']],
+        [[b'watch', b'k1'], [b'subscribe', b'k1'], [b'psubscribe', b'k1']],
+    ]
+    for h in hist:
+        for kind in ('close', 'gc'):
+            for outage in (False, True):
+                case = [('open', 9), ('cmd', 9, [b'subscribe', b'ch1']), ('cmd', 9, [b'psubscribe', b'ch1']), ('open', 2)] + [('cmd', 2, list(f)) for f in h]
+                case += ([('conn', 0)] if outage else []) + [(kind, 2)] + ([('conn', 1)] if outage else [])
+                case += [[b'publish', b'ch1', b'm1'], [b'publish', b'ch2', b'm2'], [b'publish', b'c*', b'm3'], [b'publish', b'', b'm4'], [b'publish', b'k1', b'm5'],
+                         ('close', 9), [b'publish', b'ch1', b'm6']]
+                yield Always(case)
+
+
 # ------------------------------------------------------------------ SORT (C02)
 
 def sort_cases():
